@@ -30,52 +30,32 @@ def actRec (v : Val Float) : Option Rec :=
 
 def evalFuel : Nat := 600
 
-/-- `evalTargetNode`: run a callback body in its captured environment; `none` = error. The state
-reached is kept in both cases (side effects of a failing callback persist). -/
-def runCB (s : St Float) (cb : CB Float) (allowed : List String) : Option (Option (Val Float)) × St Float :=
-  match evalBlock mkFloat evalFuel s cb.env cb.body with
-  | .ok (.ret (.act typ ev _)) s1 => if allowed.contains typ then (some (some (.act typ ev cb.target)), s1) else (none, s1)
-  | .ok (.ret .null) s1 => (some none, s1)
-  | .ok _ s1 => (none, s1)
-  | .err _ se => (none, se)
-  | .fuel => (none, s)
-
+/-- the decision calls of an eval op against the model's decision interface (`nextAction`, `defaultAction`, `ultCheck`);
+what a callback printed comes before its answer -/
 def doCalls (s : St Float) (calls : List String) : List Rec := Id.run do
   let mut s := s
   let mut out : List Rec := []
   for c in calls do
     let t : Int := (c.drop 1).toString.toInt?.getD 0
-    let dflt (s : St Float) : List Rec :=
-      match s.defaults.find? (·.1 == t) with
-      | some (_, v) => (actRec v).toList
-      | none => [Rec.mk' "callerr"]
+    let before := s.printed.length
     if c.startsWith "n" then
-      match s.skillCB.find? (·.target == t) with
-      | none => out := out ++ [Rec.mk' "callerr"]
-      | some cb =>
-        let before := s.printed.length
-        let (r, s1) := runCB s cb ["attack", "skill"]
-        let pr := (s1.printed.take (s1.printed.length - before)).reverse.map printedRec
-        s := s1
-        out := out ++ pr ++ (match r with
-          | none => [Rec.mk' "callerr"]
-          | some (some a) => (actRec a).toList
-          | some none => dflt s1)
-    else if c.startsWith "d" then out := out ++ dflt s
+      let (r, s1) := nextAction mkFloat evalFuel s t
+      let pr := (s1.printed.take (s1.printed.length - before)).reverse.map printedRec
+      s := s1
+      out := out ++ pr ++ (match r with
+        | some a => (actRec a).toList
+        | none => [Rec.mk' "callerr"])
+    else if c.startsWith "d" then
+      out := out ++ (match defaultAction s t with
+        | some a => (actRec a).toList
+        | none => [Rec.mk' "callerr"])
     else if c.startsWith "u" then
-      let mut acts : List Rec := []
-      let mut failed := false
-      let before := s.printed.length
-      for cb in s.ultCB do
-        if !failed then
-          let (r, s1) := runCB s cb ["ult", "ult_attack", "ult_skill"]
-          s := s1
-          match r with
-          | none => failed := true
-          | some (some a) => acts := acts ++ (actRec a).toList
-          | some none => pure ()
-      let pr := (s.printed.take (s.printed.length - before)).reverse.map printedRec
-      out := out ++ pr ++ (if failed then [Rec.mk' "callerr"] else acts ++ [Rec.mk' "ultdone"])
+      let (r, s1) := ultCheck mkFloat evalFuel s s.ultCB []
+      let pr := (s1.printed.take (s1.printed.length - before)).reverse.map printedRec
+      s := s1
+      out := out ++ pr ++ (match r with
+        | some acts => acts.flatMap (fun a => (actRec a).toList) ++ [Rec.mk' "ultdone"]
+        | none => [Rec.mk' "callerr"])
   return out
 
 /-- the `world` field of an eval op (see harness/gcsworld.go) -/
